@@ -124,6 +124,13 @@ pub(crate) trait Session {
     // Intercepting LinkFrames
     fn on_outgoing_attach(&mut self, attach: Attach) -> Result<SessionFrame, Self::Error>;
 
+    /// Link flows that answer flows the peer pipelined before the link was attached locally.
+    /// They can only go out behind the local attach; the session engine asks for them right
+    /// after it has handed that attach on.
+    fn take_flows_owed_after_attach(&mut self, _handle: &OutputHandle) -> Vec<LinkFlow> {
+        Vec::new()
+    }
+
     fn on_outgoing_flow(&mut self, flow: LinkFlow) -> Result<SessionFrame, Self::Error>;
 
     /// Returns a session-only flow (no link handle) when the session should proactively
